@@ -10,18 +10,22 @@ static vrt::Out out;
 static uint32_t fbits(float f) { uint32_t u; memcpy(&u, &f, 4); return u; }
 static std::string jf(const std::vector<float> &v) { std::string s = "["; for (size_t i = 0; i < v.size(); ++i) { if (i) s += ","; s += std::to_string(fbits(v[i])); } return s + "]"; }
 
-struct Built { Geom g; int att = -1; int idatt = -1; };
+struct Built { Geom g; int att = -1; int idatt = -1; int aux = -1; };   // aux: a float POSITION attribute next to the attribute under test (quantised on its own)
 
 // geometry with: POSITION int32 x3 (distinct per point), GENERIC int32 x1 point id (to re-identify points after reordering),
 // and the float attribute under test (type `type`, nc components) -- or, when type == POSITION, the float positions themselves.
-static Built build(vrt::Rng &r, bool mesh, GeometryAttribute::Type type, int nc, const std::vector<std::vector<float>> &vals, bool explicit_map) {
+static Built build(vrt::Rng &r, bool mesh, GeometryAttribute::Type type, int nc, const std::vector<std::vector<float>> &vals, bool explicit_map, bool float_aux = false) {
   Built b;
   const int np = (int)vals.size();
   b.g.is_mesh = mesh;
   b.g.pc.reset(mesh ? new Mesh() : new PointCloud());
   PointCloud *pc = b.g.pc.get();
   pc->set_num_points(np);
-  if (type != GeometryAttribute::POSITION) {
+  if (type != GeometryAttribute::POSITION && float_aux) {
+    AttDesc p{GeometryAttribute::POSITION, DT_FLOAT32, 3, false, true, np};
+    b.aux = add_attribute(pc, p, np);
+    for (int i = 0; i < np; ++i) { float xyz[3] = {(float)(i % 17) + 0.25f, (float)((i / 17) % 17) - 0.5f, (float)(i / 289) * 1.5f}; pc->attribute(b.aux)->SetAttributeValue(AttributeValueIndex(i), xyz); }
+  } else if (type != GeometryAttribute::POSITION) {
     AttDesc p{GeometryAttribute::POSITION, DT_INT32, 3, false, true, np};
     const int pid = add_attribute(pc, p, np);
     for (int i = 0; i < np; ++i) { int32_t xyz[3] = {i % 17, (i / 17) % 17, i / 289}; pc->attribute(pid)->SetAttributeValue(AttributeValueIndex(i), xyz); }
@@ -73,6 +77,7 @@ static Encoded encode_row(const Built &b, const RowOpt &ro, int q, bool use_expl
     if (use_explicit) enc->SetAttributeExplicitQuantization(b.att, q, (int)origin.size(), origin.data(), range);
     else enc->SetAttributeQuantization(b.att, q);
     if (ro.pred != -100) enc->SetAttributePredictionScheme(b.att, ro.pred);
+    if (b.aux >= 0) enc->SetAttributeQuantization(b.aux, 12);
     st = enc->EncodeToBuffer(&eb);
   } else {
     Encoder enc;
@@ -82,6 +87,7 @@ static Encoded encode_row(const Built &b, const RowOpt &ro, int q, bool use_expl
     if (use_explicit) enc.SetAttributeExplicitQuantization(t, q, (int)origin.size(), origin.data(), range);
     else enc.SetAttributeQuantization(t, q);
     if (ro.pred != -100) enc.SetAttributePredictionScheme(t, ro.pred);
+    if (b.aux >= 0) enc.SetAttributeQuantization(GeometryAttribute::POSITION, 12);
     st = b.g.is_mesh ? enc.EncodeMeshToBuffer(*b.g.mesh(), &eb) : enc.EncodePointCloudToBuffer(*b.g.pc, &eb);
   }
   e.ok = st.ok();
@@ -92,10 +98,12 @@ static Encoded encode_row(const Built &b, const RowOpt &ro, int q, bool use_expl
 
 // decoded value of the attribute under test (by type, second GENERIC is the id attribute) per ORIGINAL point index
 struct View { bool ok = false; std::vector<std::vector<float>> x; std::vector<std::vector<int32_t>> k; std::vector<float> mn; float range = 0; int bits = -1; bool has_transform = false; int ttype = -1; };
-static View view(const Encoded &e, GeometryAttribute::Type type, int nc, int np, bool skip) {
+// other_skip: an unrelated attribute type whose transform the decoder is told to skip (the attribute under test is still read normally)
+static View view(const Encoded &e, GeometryAttribute::Type type, int nc, int np, bool skip, int other_skip = -1) {
   View v;
   std::vector<GeometryAttribute::Type> sk;
   if (skip) sk.push_back(type);
+  if (other_skip >= 0) sk.push_back((GeometryAttribute::Type)other_skip);
   Decoded d = decode(e.bytes.data(), e.bytes.size(), sk);
   if (!d.ok) return v;
   const PointCloud &pc = *d.pc;
@@ -288,23 +296,27 @@ static int run_c12(uint64_t seed, long scenarios) {
       if (tile == 1) std::reverse(vals.begin(), vals.end());
       RowOpt ro = gen_rowopt(r);
       if (q > 20 && ro.mode >= 2) { ro.es = std::max(ro.es, 2); if (ro.pred == MESH_PREDICTION_CONSTRAINED_MULTI_PARALLELOGRAM) ro.pred = MESH_PREDICTION_PARALLELOGRAM; }
-      const bool extra_type = r.coin();   // positions themselves, or a generic attribute next to integer positions
-      Built b = build(r, ro.mode >= 2, GeometryAttribute::POSITION, 3, vals, r.coin(1, 3));
+      // the coordinates are positions themselves, or a generic attribute next to separately quantised float positions; in the second case the
+      // stream is also decoded with the POSITION transform skipped -- an unrelated decoder option must not change the generic values ("xd2")
+      const bool extra_type = r.coin(1, 3);
+      const GeometryAttribute::Type ty = extra_type ? GeometryAttribute::GENERIC : GeometryAttribute::POSITION;
+      if (extra_type && ro.pred != -100 && ro.pred != PREDICTION_NONE && ro.pred != PREDICTION_DIFFERENCE) ro.pred = -100;
+      Built b = build(r, ro.mode >= 2, ty, 3, vals, r.coin(1, 3), extra_type);
       Encoded e = encode_row(b, ro, q, true, origin, range, 0);
-      View vn, vs;
+      View vn, vs, vo;
       const int np = (int)vals.size();
-      if (e.ok) { vn = view(e, GeometryAttribute::POSITION, 3, np, false); vs = view(e, GeometryAttribute::POSITION, 3, np, true); }
+      if (e.ok) { vn = view(e, ty, 3, np, false); vs = view(e, ty, 3, np, true); if (extra_type) vo = view(e, ty, 3, np, false, (int)GeometryAttribute::POSITION); }
       out.begin("XTile").i("sc", sc).i("tile", tile).s("m", mn[ro.mode]).i("es", ro.es).i("pred", ro.pred).b("expert", ro.expert)
           .b("eok", e.ok).s("err", e.err).b("dok", vn.ok).b("skipok", vs.ok && vs.has_transform).raw("min", jf(vs.mn)).i("srange", fbits(vs.range)).i("bits", vs.bits);
-      std::string xs = "[", xd = "[", ks = "[";
+      std::string xs = "[", xd = "[", ks = "[", xo = "[";
       for (int i = 0; i < np; ++i) {
         if (i) { xs += ","; xd += ","; ks += ","; }
         xs += jf(vals[i]);
         xd += vn.ok ? jf(vn.x[i]) : "[]";
         ks += vs.ok ? jarr(vs.k[i]) : "[]";
+        if (extra_type && vo.ok) { if (i) xo += ","; xo += jf(vo.x[i]); }
       }
-      out.raw("x", xs + "]").raw("xd", xd + "]").raw("k", ks + "]").end();
-      (void)extra_type;
+      out.b("extra", extra_type).b("other_skip_ok", !extra_type || vo.ok).raw("x", xs + "]").raw("xd", xd + "]").raw("k", ks + "]").raw("xd2", xo + "]").end();
     }
   }
   return 0;
